@@ -482,13 +482,19 @@ Print Assumptions C02_built_contracts.
        theorem (I - B A is A-self-adjoint, so over the reals it has an A-orthogonal eigenbasis and its
        spectral radius is max |lambda|), which needs real-closedness and is not formalised;
    (c) for the re-scaled Galerkin operator of plain aggregation the Galerkin condition of
-       hier_dec does not hold (A_c = s R A P with s <> 1), B1 is stated for coarse_op = galerkin.
+       hier_dec does not hold (A_c = s R A P with s <> 1); the CONTRACTION part of B1 is stated for
+       coarse_op = galerkin.  Positive definiteness of the V-cycle preconditioner is proved for every
+       coarse operator ("B1, third part" at the end of this file); for W-cycles / pre_cycles = 2 with a
+       re-scaled operator it stays open (it is equivalent to B_1 A B_1 < 2 B_1, i.e. to contraction).
    B2 scaling: proved below (C02_built_apply_scaling) for damped Jacobi, SPAI-0, Gauss-Seidel and the
    exact coarse solve.
-   FULL STATEMENT (unproved), rest of B2: the same for the ILU(0) and Chebyshev smoothers
-   (ilu_sweep (ilu0 (c*A)) f x = ilu_sweep (ilu0 A) (f/c) x, the factors being L, c*U, D/c; Chebyshev
-   with the Gershgorin bound for c > 0) -- covered by the scaling oracle on the implementation
-   (tools/props/C02.py) only; and the binary64 statement (every operation of set-up and cycle is
+   and, as a separate statement about the sweep (Chebyshev is not a kind of mk_relax_std), for the
+   Chebyshev smoother with the Gershgorin bound (C02_chebyshev_scales, c > 0).
+   FULL STATEMENT (unproved), rest of B2: the same for the ILU(0) smoother
+   (ilu_sweep (ilu0 (c*A)) f x = ilu_sweep (ilu0 A) (f/c) x, the factors being L, c*U, D/c)
+   -- covered by the scaling oracle on the implementation (tools/props/C02.py) only; the cycle
+   theorem C02_cycle_scaling applies to ANY smoother satisfying sweep_sim, so only that sweep
+   statement is missing; and the binary64 statement (every operation of set-up and cycle is
    homogeneous in A, so multiplying by 2^k only shifts exponents) -- tested bitwise, not proved. *)
 
 (* ================================================================== *)
@@ -1054,3 +1060,104 @@ Proof.
   split; [apply (wddb_ok QcS_eqb); vm_compute; reflexivity|].
   split; [apply (iddb_ok QcS_eqb); vm_compute; reflexivity|vm_compute; reflexivity].
 Qed.
+
+(* ================================================================== *)
+(* B1, third part (AmgSmooth6.v): positive definiteness of the V-cycle for ANY coarse operator, in
+   particular the re-scaled Galerkin operator of plain aggregation (over-interpolation, amgcl's default
+   for coarsening::aggregation), where the energy argument does not apply.  ncycle = 1, pre_cycles = 1,
+   npre = npost = k:   <B g, g> = - J_g(pre^k(g, 0)) + <B_c w, w>,   w = R (g - A pre^k(g, 0)).
+   hier_pre_dec: every pre-smoother does not increase the energy of ITS OWN level matrix, coarse
+   solver non-negative; no relation between the level matrices is assumed. *)
+From Amgcl Require Import AmgSmooth6.
+
+Theorem C02_vcycle_positive_definite {S : Scalar} (Sft : Sfield S) (Seqb : seqb_spec S) (Ord : ordered S)
+  k (lvls : list (@level S)) :
+  hier_sym lvls -> hier_symk lvls -> hier_pre_dec lvls ->
+  (forall g, length g = top_n lvls -> ole s0 (ip (top_n lvls) (Bop k lvls g) g)) /\
+  ((match lvls with
+    | l :: _ => it_sdec (nrows (lA l)) (lA l) (itpow k (sm (nrows (lA l)) (lpre l))) /\
+                (lsolve l = None \/ exists nxt rest, lvls = l :: nxt :: rest)
+    | [] => False end) ->
+   forall g, length g = top_n lvls -> g <> vzero (top_n lvls) ->
+   olt s0 (ip (top_n lvls) (Bop k lvls g) g)).
+Proof.
+  exact (fun Hs Hk Hp => conj (Vcycle_psd Sft Seqb Ord k lvls Hs Hk Hp)
+                              (Vcycle_pd Sft Seqb Ord k lvls Hs Hk Hp)).
+Qed.
+Print Assumptions C02_vcycle_positive_definite.
+
+Theorem C02_built_vcycle_positive_definite {S : Scalar} (Sft : Sfield S) (Seqb : seqb_spec S) (Ord : ordered S)
+  (Habs2 : forall v : S, sabs v * sabs v = v * v) kd ce dc ml sc ts (M : crs S) k :
+  let ls := amg_init ce dc ml (coarse_op_of sc) ts M in
+  wf M = true -> sym_mat (nrows M) M -> ts_sym (nrows M) ts ->
+  (forall A, In (LSolve A) ls -> solvable A = true) ->
+  descs_ok kd ls -> top_strict_desc kd ls -> top_smoothed ls ->
+  let lvls := std_levels kd ls in
+  forall scr g x, scratch_wf lvls scr -> length g = nrows M -> length x = nrows M ->
+  g <> vzero (nrows M) ->
+  olt s0 (ip (nrows M) g (fst (apply (Datatypes.S k) (Datatypes.S k) 1 1 lvls scr g x))).
+Proof. exact (built_Vcycle_pd Sft Seqb Ord Habs2 kd ce dc ml sc ts M k). Qed.
+Print Assumptions C02_built_vcycle_positive_definite.
+
+(* closed at Qc: the re-scaled Galerkin operator with s = 2/3 (over_interp = 1.5, amgcl's default for
+   plain aggregation), default damped Jacobi 0.72, SPAI-0 or Gauss-Seidel, V(k,k), k >= 1 *)
+Definition exHs := amg_init 1 true 10 (coarse_op_of (Some (qc 2 3))) exTs exM.
+Theorem C02_vcycle_positive_definite_rescaled_Qc (kd : @relax_kind QcS) k :
+  kd = exJacDefault \/ kd = @RSpai0 QcS \/ kd = @RGS QcS ->
+  let lvls := std_levels kd exHs in
+  forall scr (g x : vec QcS), scratch_wf lvls scr -> length g = 4 -> length x = 4 -> g <> vzero 4 ->
+  olt s0 (ip 4 g (fst (apply (Datatypes.S k) (Datatypes.S k) 1 1 lvls scr g x))).
+Proof.
+  intros Hk lvls scr g x Hs Lg Lx Hg.
+  apply (built_Vcycle_pd QcS_field QcS_eqb QcS_ordered QcS_abs2 kd 1 true 10 (Some (qc 2 3)) exTs exM k);
+    try assumption.
+  - vm_compute. reflexivity.
+  - apply (sym_matb_ok QcS_eqb). vm_compute. reflexivity.
+  - apply (ts_symb_ok QcS_eqb). vm_compute. reflexivity.
+  - intros A HA. apply (solve_check_ok (amg_init 1 true 10 (coarse_op_of (Some (qc 2 3))) exTs exM)); [|exact HA].
+    vm_compute. reflexivity.
+  - apply (descs_okb_ok QcS_field QcS_eqb QcS_ordered QcS_abs2).
+    destruct Hk as [->|[->| ->]]; vm_compute; reflexivity.
+  - destruct Hk as [->|[->| ->]]; cbn; [left; vm_compute; reflexivity|exact I|exact I].
+  - exact I.
+Qed.
+Print Assumptions C02_vcycle_positive_definite_rescaled_Qc.
+
+(* ================================================================== *)
+(* B2, second part (AmgScale5.v, AmgScale6.v): the Chebyshev smoother in its default configuration
+   (Gershgorin bound, no diagonal scaling; model Cheby.v) scales as well, for c > 0:
+   the bound of c*A is c times the bound of A, alpha_k becomes alpha_k / c, beta_k is unchanged, and
+   the sweep of (c*A, b) is the sweep of (A, b/c) for every degree and every content of the
+   workspaces.  Hypotheses on the scalars: |v c| = |v| c and 1/0 = 0 (both hold for the exact
+   rationals and for vq::Q; with 1/0 = 0 no side condition on the recurrence is needed). *)
+From Amgcl Require Import Cheby AmgScale5 AmgScale6.
+
+Theorem C02_chebyshev_scales {S : Scalar} (Sft : Sfield S) (Seqb : seqb_spec S) (Ord : ordered S)
+  (c : S) (Hc : olt s0 c) (Habs : forall v : S, sabs (v * c) = sabs v * c) (Hinv0 : sinv (@s0 S) = s0)
+  (A : crs S) (lower higher : S) (junk junk' : vec S) degree (b x p p' r r' : vec S) :
+  wf A = true -> length b = nrows A -> length x = nrows A ->
+  length p = nrows A -> length p' = nrows A -> length r = nrows A -> length r' = nrows A ->
+  gershgorin false (mscale A c) = gershgorin false A * c /\
+  cheby_sweep (cheby_setup false (mscale A c) (gershgorin false (mscale A c)) lower higher junk')
+              degree (mscale A c) b x p' r' =
+  cheby_sweep (cheby_setup false A (gershgorin false A) lower higher junk) degree A (vsc (sinv c) b) x p r.
+Proof.
+  exact (fun WA Lb Lx Lp Lp' Lr Lr' =>
+    conj (gershgorin_mscale Sft Ord c Hc Habs A)
+         (cheby_sweep_mscale Sft Seqb Ord c Hc Habs Hinv0 A lower higher junk junk' degree b x p p' r r'
+            WA Lb Lx Lp Lp' Lr Lr')).
+Qed.
+Print Assumptions C02_chebyshev_scales.
+
+Theorem C02_chebyshev_scales_Qc (c : T QcS) (Hc : olt s0 c)
+  (A : crs QcS) (lower higher : T QcS) (junk junk' : vec QcS) degree (b x p p' r r' : vec QcS) :
+  wf A = true -> length b = nrows A -> length x = nrows A ->
+  length p = nrows A -> length p' = nrows A -> length r = nrows A -> length r' = nrows A ->
+  cheby_sweep (cheby_setup false (mscale A c) (gershgorin false (mscale A c)) lower higher junk')
+              degree (mscale A c) b x p' r' =
+  cheby_sweep (cheby_setup false A (gershgorin false A) lower higher junk) degree A (vsc (sinv c) b) x p r.
+Proof.
+  exact (cheby_sweep_mscale QcS_field QcS_eqb QcS_ordered c Hc (QcS_abs_mul c Hc) QcS_inv0
+           A lower higher junk junk' degree b x p p' r r').
+Qed.
+Print Assumptions C02_chebyshev_scales_Qc.
